@@ -20,6 +20,7 @@ import warnings
 sys.path.insert(0, os.path.dirname(os.path.dirname(os.path.abspath(__file__))))
 import common as C  # noqa: E402
 import exedriver    # noqa: E402
+from props import c09_rebuild as R  # noqa: E402
 from floatcmp import f2b, b2f, close  # noqa: E402
 
 PROPS = ['FinVerif.Props.C09', 'FinVerif.Props.C09b', 'FinVerif.Props.C09c', 'FinVerif.Props.C09d']
@@ -69,6 +70,7 @@ def run(ctx):
             worst[k] = max(worst.get(k, 0.0), float(v))
 
     _DRIVER_OK['ok'] = bool(drivers_ok)
+    rebuild_cases, rebuild_proc = R.rebuild_start(ctx, quick)      # the fresh subprocess runs while the other components do
     def curve_oracles(cs, vd, tenors, spreads, cdss, curve, libor, rec, rate):
         """survival shape and repricing of one bootstrapped curve (main component and its corpus)"""
         vals = np.array(curve._values, float)
@@ -245,6 +247,7 @@ def run(ctx):
 
     reuse_oracle(ctx, see, quick)
     conv_ops, conv_checks = conventions_oracle(ctx, see, quick)
+    R.rebuild_finish(ctx, see, rebuild_cases, rebuild_proc)
 
     if drivers_ok and conv_ops:
         try:
@@ -476,7 +479,7 @@ def _mk_cds(step_in, spec):
                DayCountTypes(spec['dc']), CalendarTypes(spec['cal']), BusDayAdjustTypes(spec['bd']), DateGenRuleTypes(spec['dg']))
 
 
-def _record_build(vd, contracts, libor, rec):
+def _record_build(vd, contracts, libor, rec, use_cache=False, interp=1):
     """CDSCurve(vd, contracts, libor, rec) with `scipy.optimize.newton` as seen by cds_curve.py intercepted: per solver
     call the start value, the objective at two probe points, the value left in the knot, the objective there, and the
     returned root."""
@@ -496,7 +499,8 @@ def _record_build(vd, contracts, libor, rec):
         return root
     cc.optimize = types.SimpleNamespace(newton=newton)
     try:
-        curve = cc.CDSCurve(vd, contracts, libor, rec)
+        from financepy.market.curves.interpolator import InterpTypes
+        curve = cc.CDSCurve(vd, contracts, libor, rec, use_cache, InterpTypes(interp))
     finally:
         cc.optimize = real
     return curve, calls
@@ -636,7 +640,7 @@ def _conv_eval(case, want_ops=True):
             return FINDING_MISINDEX      # the mis-weighted first coupon leaves an annuity so small that the secant search finds no root
         return FINDING_SINGLE if any(len([d for d in c.payment_dts if d > vd]) == 1 for c in cs) else None
     try:
-        curve, calls = _record_build(vd, quotes, libor, rec)
+        curve, calls = _record_build(vd, quotes, libor, rec, case.get('use_cache', False), case.get('interp', 1))
     except Exception as e:  # noqa: BLE001
         fails.append(('conv-bootstrap-completes', f'CDSCurve bootstrap raised {type(e).__name__}: {e}',
                       {'accrual_factors_tail': [c.accrual_factors[-2:] for c in quotes]}, exc_finding(quotes, e)))
@@ -804,6 +808,8 @@ def conventions_oracle(ctx, see, quick):
     from financepy.utils.error import FinError
     from financepy.products.credit.cds import CDS
     rng = ctx.rng('conv')
+    frng = ctx.rng('convflags')         # CDSCurve constructor flags: own stream, the `conv` cases stay what they were
+    from financepy.market.curves.interpolator import InterpTypes
     dcs, freqs, cals, bds, dgs = _conv_enums()
     n_cases = 170 if quick else 2500
     ops, checks = [], []
@@ -851,7 +857,8 @@ def conventions_oracle(ctx, see, quick):
                      coupon=rng.choice([0.01, 0.05, base * 2.5, 10 ** rng.uniform(-4, -0.5)]),
                      notional=rng.choice([1.0, 1e6, 10 ** rng.uniform(0, 8)]), long=rng.random() < 0.6)
         case = {'value_dt': [vd.d, vd.m, vd.y], 'step_in_dt': [step_in.d, step_in.m, step_in.y], 'recovery': rng.choice([0.2, 0.4, 0.4, 0.6]),
-                'flat_rate': rng.choice([0.01, 0.03, 0.05]), 'quotes': quotes, 'trade': trade}
+                'flat_rate': rng.choice([0.01, 0.03, 0.05]), 'quotes': quotes, 'trade': trade,
+                'use_cache': frng.random() < 0.5, 'interp': frng.choice([m.value for m in InterpTypes])}
         with warnings.catch_warnings():      # single-coupon contracts (known finding) divide by a zero / NaN annuity
             warnings.simplefilter('ignore', RuntimeWarning)
             fails, o, c, stats = _conv_eval(case, want_ops=it < (120 if quick else 1500))
@@ -886,6 +893,20 @@ def replay(ctx, path):
     from financepy.products.credit.cds import CDS
     from financepy.products.credit.cds_curve import CDSCurve
     cs = v['case']
+    if str(v.get('clause', '')).startswith('rebuild'):
+        case = {'history': cs['history'], 'changed': cs['changed']}
+        try:
+            wobs = R.finish_worker(R.start_worker([case['history'][1]]))[0]
+        except C.DriverError as e:
+            print('replay: fresh subprocess failed:', e)
+            wobs = None
+        fails, _ = R.evaluate(case, wobs)
+        for clause, what, details, finding in fails:
+            print(f'replay: {clause}: {what} {json.dumps(details, default=str)[:600]} (classifier {finding})')
+        if any(f[0] == v['clause'] for f in fails):
+            print(f'VIOLATION property=C09 replay={path}')
+            return 1
+        return 0
     if str(v.get('clause', '')).startswith('conv'):
         fails, _, _, _ = _conv_eval(cs, want_ops=False)
         for clause, what, details, finding in fails:
